@@ -163,7 +163,7 @@ Proof.
   intros Ho.
   destruct (step_converged c (head_seen HD) (fun _ => True) True Tr Tr2 HD TrG Hc (fun _ _ H => proj1 H)
               (fun _ _ _ => forall_true _) (fun _ _ _ => I)
-              (fun k n h H => proj2 H) (fun _ _ => I) (fun _ _ _ _ _ _ _ _ _ _ => I)
+              (fun k n h H => proj2 H) (fun _ _ => I) (fun _ _ _ _ _ _ _ _ _ _ _ _ _ => I)
               g d s Hpv (W_true c g Hw) (Forall_True s) Ht Ho)
     as (p & q & bs & ln & lh & Eg & _ & Hp & [Hwf _] & Hpos & Hn & Hne & Hlen & _).
   exists p, q, bs, ln. split; [exact Eg|]. split; [exact Hp|]. split; [exact Hwf|].
@@ -181,7 +181,7 @@ Proof.
   intros Ho.
   destruct (step_done c (head_seen HD) (fun _ => True) True Tr Tr2 HD TrG Hc (fun _ _ H => proj1 H)
               (fun _ _ _ => forall_true _) (fun _ _ _ => I)
-              (fun k n h H => proj2 H) (fun _ _ => I) (fun _ _ _ _ _ _ _ _ _ _ => I)
+              (fun k n h H => proj2 H) (fun _ _ => I) (fun _ _ _ _ _ _ _ _ _ _ _ _ _ => I)
               g d s Hpv (W_true c g Hw) (Forall_True s) Ht Ho) as (A & B & p & q & ln & lh & Eg & Hpos & Hle).
   split; [exact A|]. split; [exact B|]. exists p, q, ln.
   split; [exact Eg|]. split; [eapply pos_resume; exact Hpos|exact Hle].
